@@ -10,7 +10,7 @@ PROP = {'gen_tables': ['FrontEnds', 'TransCE', 'TransCEAdd', 'TransLogger', 'Tra
  'assumptions': ['os.Exit / panic / runtime.Goexit themselves are observed (exit status 1 / status 2 + "panic: <msg>" on stderr / goroutine end), '
                  'not proved',
                  'the order of observer-leaf writes relative to other events is not observable (io leaves carry the ordering)'],
- 'technique': 'Lean 4: theorems over the regenerated front-end/guard table (every front end reaches the terminal action at DPanic(dev)/Panic/Fatal; write and sync precede it); tie: Gen + spies + real subprocesses observing exit status and file contents + translated source (CheckedEntry.Write: the terminal hook runs iff set, last; Logger.check\'s terminal switch; terminalHookOverride) + failing-sink delivery model',
+ 'technique': 'Lean 4: theorems over the regenerated front-end/guard table (every front end reaches the terminal action at DPanic(dev)/Panic/Fatal; write and sync precede it); tie: Gen + spies + real subprocesses observing exit status and file contents + translated source (CheckedEntry.Write: the terminal hook runs iff set, last; Logger.check\'s terminal switch; terminalHookOverride) + failing-sink delivery model + translated zapgrpc printers (Fatal-level Println never skipped)',
  'level_text': 'frontends_exact makes any new or changed guard in logger.go/sugar.go/global.go/zapgrpc.go a failing proof; the event order write → sync → terminal is proved for every core tree and observed on real processes.',
  'level_note': 'Process exit, panic propagation and Goexit are observed from outside, not proved.',
 }
